@@ -150,6 +150,7 @@ class Intervals:
         self.instate = {}
         self.thresholds = ()
         self.discriminators = []
+        self.force_discriminators = None         # client-chosen partition keys (zero / non-zero status)
         self.node_state = {}              # node id -> state before the node (filled by annotate())
 
     # ---- keys
@@ -181,6 +182,8 @@ class Intervals:
         if k is not None and k in st:
             m = meet(st[k], tr)
             return st[k] if m == "bot" else m
+        if isinstance(k, tuple) and len(k) == 2 and ("zinit", k[0]) in st and tr != (None, None):
+            return (0, 0)
         return tr
 
     # ---- expression evaluation
@@ -337,10 +340,21 @@ class Intervals:
     def _is_diff(kk):
         return isinstance(kk, tuple) and len(kk) == 2 and kk[0] == "diff"
 
+    @staticmethod
+    def _zinit_fill(a, b):
+        """members of a zero-initialised record that only one side has written are still zero on the other side"""
+        for src, dst in ((a, b), (b, a)):
+            for kk in list(src):
+                if isinstance(kk, tuple) and len(kk) == 2 and kk[0] != "zinit" and kk[0] != "diff" and kk not in dst \
+                        and ("zinit", kk[0]) in dst:
+                    dst[kk] = (0, 0)
+
     def _merge(self, a, b):
         """plain join of two states (no widening, no completion): intervals joined, difference bounds maxed, exact
         difference facts kept when equal"""
         out = {}
+        a, b = dict(a), dict(b)
+        self._zinit_fill(a, b)
         for kk in set(a) & set(b):
             if self._is_rel(kk):
                 out[kk] = max(a[kk], b[kk])
@@ -576,9 +590,11 @@ class Intervals:
             if l0 is not None and l0.get("k") == "DeclRefExpr":
                 for kk in [x for x in st if isinstance(x, tuple) and x[0] == l0["d"]]:
                     del st[kk]
+                st.pop(("zinit", l0["d"]), None)
             elif l0 is not None and l0.get("k") == "MemberExpr":
                 base, path = member_path(l0)
                 if base is not None and base.get("k") == "DeclRefExpr":
+                    st.pop(("zinit", base["d"]), None)
                     pre = ".".join(path)
                     for kk in [x for x in st if isinstance(x, tuple) and x[0] == base["d"] and (x[1] == pre or x[1].startswith(pre + "."))]:
                         del st[kk]
@@ -695,6 +711,12 @@ class Intervals:
                 else:
                     for kk in [x for x in st if isinstance(x, tuple) and x[0] == v["d"]]:
                         del st[kk]
+                    st.pop(("zinit", v["d"]), None)
+                    ini = kids(v)[0] if kids(v) else None
+                    if ini is not None and ini.get("k") == "InitListExpr" and t.get("rec") is not None and \
+                            all(const_of(e) == 0 for e in kids(ini)):
+                        # = {0}: every scalar member starts as zero until it is written or the record escapes
+                        st[("zinit", v["d"])] = (0, 0)
         elif k == "CallExpr":
             # address-taken variables may be written by the callee
             for a in call_args(n):
@@ -710,6 +732,7 @@ class Intervals:
                     if y is not None and y.get("k") == "DeclRefExpr":
                         for kk in [z for z in st if isinstance(z, tuple) and z[0] == y["d"]]:
                             del st[kk]
+                        st.pop(("zinit", y["d"]), None)
                 elif x is not None and x.get("k") == "DeclRefExpr" and self.tu.types[x["t"]].get("ptr"):
                     # pointer to record passed on: its members may change -- only those the callee (transitively) assigns
                     # when its body is known
@@ -874,6 +897,7 @@ class Intervals:
 
     def _join_states(self, a, b, widen_it=False, materialise=False):
         a, b = dict(a), dict(b)
+        self._zinit_fill(a, b)
         if materialise:
             # at a loop head: difference bounds that both sides imply through their intervals only (x <= hi, y >= lo) would be
             # lost by the interval join; make them explicit for the variables whose intervals differ
@@ -923,6 +947,8 @@ class Intervals:
                     return False
                 continue
             va = a.get(kk)
+            if va is None and isinstance(kk, tuple) and len(kk) == 2 and ("zinit", kk[0]) in a:
+                va = (0, 0)
             if va is None:
                 return False
             if vb[0] is not None and (va[0] is None or va[0] < vb[0]):
@@ -970,6 +996,31 @@ class Intervals:
                 ncase = sum(1 for x in walk(sw["c"][1]) if x.get("k") == "CaseStmt") if len(sw["c"]) > 1 else 0
                 cand[k] = max(cand.get(k, 0), ncase)
         self.discriminators = [k for k, _ in sorted(cand.items(), key=lambda kv: -kv[1])[:2]]
+        if self.force_discriminators is not None:
+            self.discriminators = list(self.force_discriminators)
+        # one-shot loop flags (the `with (decls)` idiom: for (decls, *flag = (void*)1; flag; flag = 0)): pointer variables that only
+        # ever hold constants steer a loop that runs exactly once; partitioning on them keeps what the body established
+        consts = {}
+        for n in fn.walk():
+            if n.get("k") == "Var" and self.tu.types[n["t"]].get("ptr"):
+                consts.setdefault(n["d"], []).append(const_of(kids(n)[0]) if kids(n) else "uninit")
+            elif n.get("k") == "BinaryOperator" and n.get("op") == "=":
+                l = strip_casts(n["c"][0])
+                if l is not None and l.get("k") == "DeclRefExpr" and l.get("d") in consts:
+                    consts[l["d"]].append(const_of(n["c"][1]))
+            elif n.get("k") == "UnaryOperator" and n.get("op") in ("&", "++", "--", "*"):
+                l = strip_casts(n["c"][0])
+                if l is not None and l.get("k") == "DeclRefExpr" and l.get("d") in consts:
+                    consts[l["d"]].append(None)
+            elif n.get("k") == "CompoundAssignOperator":
+                l = strip_casts(n["c"][0])
+                if l is not None and l.get("k") == "DeclRefExpr" and l.get("d") in consts:
+                    consts[l["d"]].append(None)
+        for d, vs in consts.items():
+            if len(vs) >= 2 and all(isinstance(v, int) for v in vs):
+                self.ptr_keys.add(d)
+                if d not in self.discriminators:
+                    self.discriminators.append(d)
         instate = {cfg.entry: {self._signature(self.entry): dict(self.entry)}}
         visits = {}
         # widening points: targets of DFS back edges (every cycle passes through one); elsewhere states are only joined
